@@ -1,25 +1,1 @@
-// generated by bin/check for one replay; emptied afterwards
-/// Test generated for harness `raw::verif_kani::c16_fifo_drop_replace_younger` 
-///
-/// Check for `assertion`: "deadlock: RawRwLock::lock_exclusive_slow reached (lock requested while held)"
-///
-/// # Warning
-///
-/// Concrete playback tests combined with stubs or contracts is highly
-/// experimental, and subject to change.
-///
-/// The original harness has stubs which are not applied to this test.
-/// This may cause a mismatch of non-deterministic values if the stub
-/// creates any non-deterministic value.
-/// The execution path may also differ, which can be used to refine the stub
-/// logic.
-
-#[test]
-fn kani_concrete_playback_c16_fifo_drop_replace_younger_7732390902114170756() {
-    let concrete_vals: Vec<Vec<u8>> = vec![
-        // 0ul
-        vec![0, 0, 0, 0, 0, 0, 0, 0],
-    ];
-    kani::concrete_playback_run(concrete_vals, c16_fifo_drop_replace_younger);
-}
-
+// (empty) filled by bin/check with the generated concrete-playback test during a replay, emptied afterwards
